@@ -475,6 +475,36 @@ func writeEvidence(spec *PropSpec, opts RunOpts, items []Item, results []*ItemRe
 	cov["functions_encoded"] = fl
 	cov["work_items"] = len(items)
 	cov["shapes_per_harness"] = shapesBy
+	// history items: main harness after other harness calls in the same process state
+	hist := map[string]int{}
+	nh := 0
+	for _, it := range items {
+		if len(it.Pre) > 0 {
+			nh++
+			k := it.Func + " after"
+			for i := len(it.Pre) - 1; i >= 0; i-- {
+				k += " " + it.Pre[i].Harness
+			}
+			hist[k]++
+		}
+	}
+	cov["history_items"] = nh
+	if nh > 0 {
+		cov["history_items_by_kind"] = hist
+	}
+	summarized, candidates, truncated := 0, 0, 0
+	for _, r := range results {
+		if r != nil {
+			summarized += r.Summarized
+			candidates += r.Candidates
+			if r.Truncated {
+				truncated++
+			}
+		}
+	}
+	cov["calls_evaluated_by_function_summary"] = summarized
+	cov["fp_obligations_answered_by_real_model_candidate"] = candidates
+	cov["items_truncated_after_24_counterexamples"] = truncated
 	cov["queries"] = map[string]int{"sat": qs.Sat, "unsat": qs.Unsat, "unknown": qs.Unknown, "fallback_to_second_solver": qs.Fallback, "solver_errors": qs.Errors}
 	cov["solver_time_s"] = qs.TimeBy
 	// bounds: the shape parameters enumerated by the driver (everything else is symbolic), per harness
